@@ -160,4 +160,15 @@ def runPre (st : St) : List Str → Except Err (St × List Rec)
 /-- `get_numbered_lines(content)` on `content.split("\n")` -/
 def numbered (lines : List Str) : Except Err (List Rec) := run St.init lines
 
+/-! ### uniform scaling of the indentation (the layout edit "indentation × k") -/
+
+/-- repeat the leading run of `' '` of a line `k` times (what "scaling the indentation by k" does to one raw line) -/
+def scaleLine (k : Nat) (l : Str) : Str := List.replicate (k * lead l) ' ' ++ l.drop (lead l)
+
+def scaleRec (k : Nat) (r : Rec) : Rec := { r with indentation := k * r.indentation }
+
+/-- a line that could open a multi-line string is *tight*: nothing but `' '` in front of the text and nothing behind it, so that
+    `len(raw_lines[i]) - len(raw_line.lstrip())` (the `multiline_indentation`) is exactly the number of leading spaces -/
+def openerTight (l : Str) : Bool := !isOpener (strip l) || l.length == lead l + (strip l).length
+
 end NemoVerif.NumberedLines
